@@ -49,6 +49,16 @@ type Contract struct {
 	Notes     []string
 	Reads     []string
 	Abstract  bool // body not verified here although in /repo ("assumed" contract, reported)
+	Sets      []*SetClause
+	Access    string // dispatch class (surface sweep)
+}
+
+// SetClause is a ghost assignment performed at function exit: Ghost := Expr (Expr over old state, parameters and results).
+type SetClause struct {
+	Ghost string
+	E     Expr
+	Src   string
+	Line  string
 }
 
 type GhostVar struct {
@@ -86,7 +96,7 @@ var labelRe = regexp.MustCompile(`^([a-zA-Z][a-zA-Z0-9_\-]*):\s+(.*)$`)
 
 var keywords = map[string]bool{"channel": true, "func": true, "interface": true, "props": true, "requires": true, "ensures": true,
 	"modifies": true, "nopanic": true, "inline": true, "pure": true, "loop": true, "closure": true, "invariant": true,
-	"ghost": true, "axiom": true, "note": true, "reads": true, "abstract": true, "end": true, "access": true}
+	"ghost": true, "sets": true, "axiom": true, "note": true, "reads": true, "abstract": true, "end": true, "access": true}
 
 // parseSpecFile reads //@ lines (or bare lines in .spec files) into the db.
 // pkgShort qualifies unqualified function keys.
@@ -232,6 +242,9 @@ func (db *SpecDB) parseSpecFile(path string, src []byte, pkgShort string, truste
 			}
 			f := strings.SplitN(rest, " ", 2)
 			n, err := strconv.Atoi(f[0])
+			if f[0] == "*" {
+				n, err = 0, nil // default invariants for every loop without its own block
+			}
 			if err != nil {
 				return fmt.Errorf("%s: loop ordinal: %v", loc, err)
 			}
@@ -291,8 +304,21 @@ func (db *SpecDB) parseSpecFile(path string, src []byte, pkgShort string, truste
 			}
 			db.Axioms = append(db.Axioms, &Axiom{Label: c.Label, E: c.E, Src: c.Src, File: loc})
 		case "access":
-			// dispatch class, kept as a note; interpreted by the surface sweep
-			tgt.Notes = append(tgt.Notes, "access "+rest)
+			// dispatch class, interpreted by the surface sweep (expanded into requires/ensures there)
+			tgt.Access = rest
+		case "sets":
+			i := strings.Index(rest, "=")
+			if i < 0 {
+				return fmt.Errorf("%s: sets Ghost = expr", loc)
+			}
+			g := strings.TrimSpace(rest[:i])
+			ex, err := parseExpr(strings.TrimSpace(rest[i+1:]))
+			if err != nil {
+				return fmt.Errorf("%s: %v", loc, err)
+			}
+			tgt.Sets = append(tgt.Sets, &SetClause{Ghost: g, E: ex, Src: rest, Line: loc})
+			tgt.HasMod = true
+			tgt.Modifies = append(tgt.Modifies, g)
 		default:
 			return fmt.Errorf("%s: unknown directive %q", loc, word)
 		}
@@ -383,12 +409,12 @@ func loadSpecs(w *World, trustedDir string, overlay map[string][]byte) (*SpecDB,
 type Expr interface{ String() string }
 
 type (
-	EIdent  struct{ Name string }
-	EInt    struct{ V string }
-	EStr    struct{ V string }
-	EBool   struct{ V bool }
-	ENil    struct{}
-	ESel    struct {
+	EIdent struct{ Name string }
+	EInt   struct{ V string }
+	EStr   struct{ V string }
+	EBool  struct{ V bool }
+	ENil   struct{}
+	ESel   struct {
 		X    Expr
 		Name string
 	}
